@@ -174,7 +174,10 @@ Inductive op :=
 | ClientRequest              (* an attributed client request through the listener *)
 | ProvisionQuery (notify : bool)   (* GET /provision on the listener *)
 | ProvisionTimeup            (* provision::provision_timeup *)
-| StatusTick.                (* one status.json write of ProxyAgentStatusTask *)
+| StatusTick                 (* one status.json write of ProxyAgentStatusTask *)
+| RemoveKeyDir               (* environment fault: somebody removes the key directory and everything in it *)
+| CancelledSigner.           (* a requester of the key is cancelled between queueing its request at the key
+                               keeper actor and receiving the reply (the actor's undeliverable-reply branch) *)
 
 Definition history := list op.
 
@@ -220,6 +223,8 @@ Definition set_latch st b := {| mem := mem st; chan := chan st; kkmsg := kkmsg s
   latch_ready := b; notify_pending := notify_pending st; rule := rule st; dir_exists := dir_exists st |}.
 Definition set_notify st b := {| mem := mem st; chan := chan st; kkmsg := kkmsg st; files := files st;
   latch_ready := latch_ready st; notify_pending := b; rule := rule st; dir_exists := dir_exists st |}.
+Definition set_dir st b := {| mem := mem st; chan := chan st; kkmsg := kkmsg st; files := files st;
+  latch_ready := latch_ready st; notify_pending := notify_pending st; rule := rule st; dir_exists := b |}.
 Definition set_rule st r := {| mem := mem st; chan := chan st; kkmsg := kkmsg st; files := files st;
   latch_ready := latch_ready st; notify_pending := notify_pending st; rule := r; dir_exists := dir_exists st |}.
 
@@ -241,7 +246,8 @@ Inductive sys :=
 | Mkdir                       (* mkdir <key dir> *)
 | Chown (uid gid : N)         (* chown <key dir> *)
 | Chmod (mode : N)            (* chmod <key dir> *)
-| Create (c : fileclass).     (* open(O_CREAT) of a file directly inside <key dir> *)
+| Create (c : fileclass)      (* open(O_CREAT) of a file directly inside <key dir> *)
+| Rmdir.                      (* <key dir> is removed (by the environment, not by the agent) *)
 
 (* ---------------------------------------------------------------------------------------- *)
 (* message texts                                                                            *)
@@ -301,6 +307,11 @@ Definition msg_sign_failed (k : keyid) : text :=
 (* proxy_server.rs: format!("Added authorization header {}", authorization_value) *)
 Definition authorization_value (k : keyid) : text := [Public "scheme"; Lit " "; Public "guid"; Lit " "; Mac k].
 Definition msg_sign_added (k : keyid) : text := Lit "Added authorization header " :: authorization_value k.
+
+(* key_keeper.rs: format!("Failed to save key details to file: {:?}", e), e = Key(StoreLocalKey("json_write_to_file '<path>' failed <io error>")) *)
+Definition msg_store_failed : text :=
+  [Lit "Failed to save key details to file: "; Lit "Key(StoreLocalKey(json_write_to_file '"; Public "path"; Lit "' failed ";
+   Public "io error"; Lit "))"].
 
 (* misc_helpers::json_write_to_file(&key, <guid>.key): the Key document *)
 Definition key_document (k : keyid) : text :=
@@ -385,6 +396,11 @@ Definition acquire_block (v : variant) (st : state) (kr : key_resp) (ar : attest
   | KOk k hex =>
       if negb hex && fix_hex v then
         let '(st1, o) := set_status st msg_acquire_nonhex_fixed true in (st1, post ++ o, [], false)
+      else
+      if negb (dir_exists st) then
+        (* store_key -> json_write_to_file: File::create fails, the key folder is gone; nothing is created *)
+        let '(st1, o) := set_status st msg_store_failed true in
+        (st1, post ++ o, [], false)
       else
       (* store_key: <guid>.tmp created, renamed to <guid>.key; check_key reads it back *)
       let st1 := set_files st (store_file k hex (files st)) in
@@ -516,11 +532,14 @@ Definition provision_query (st : state) (notify : bool) : state * list out :=
   ((if send then set_notify st true else st),
    pre ++ o ++ on ++ [(ConnLog, Lit "Provision state: " :: js); (ClientResponse, js)]).
 
-(* provision.rs provision_timeup -> write_provision_state (ALL_READY is never reached) *)
-Definition provision_timeup (st : state) : list out * list sys :=
+(* provision.rs provision_timeup -> write_provision_state (ALL_READY is never reached).
+   write_provision_state starts with try_create_folder(provision_dir = the key folder): when the folder is gone
+   it is RE-CREATED with default permissions and nothing restricts it until the next start (F12). *)
+Definition provision_timeup (st : state) : state * list out * list sys :=
   let '(m, o) := failed_state_message st in
-  ([(ProvisionTag, [Public "timestamp"])] ++ o ++ serial m ++ event true m ++ [(ProvisionTag, m)],
-   [Create FTag; Create FTag]).
+  (set_dir st true,
+   [(ProvisionTag, [Public "timestamp"])] ++ o ++ serial m ++ event true m ++ [(ProvisionTag, m)],
+   (if dir_exists st then [] else [Mkdir]) ++ [Create FTag; Create FTag]).
 
 (* proxy_agent_status.rs ProxyAgentStatusTask::start: one pass of loop_status *)
 Definition status_tick (st : state) : list out :=
@@ -539,8 +558,12 @@ Definition step (v : variant) (co : bool) (st : state) (o : op) : state * list o
   | Restart => boot (files st) (dir_exists st) co
   | ClientRequest => (st, client_request st, [])
   | ProvisionQuery n => let '(st1, o) := provision_query st n in (st1, o, [])
-  | ProvisionTimeup => let '(o, s) := provision_timeup st in (st, o, s)
+  | ProvisionTimeup => provision_timeup st
   | StatusTick => (st, status_tick st, [])
+  | RemoveKeyDir => (set_dir (set_files st []) false, [], if dir_exists st then [Rmdir] else [])   (* nothing to remove twice *)
+  | CancelledSigner =>
+      (* key_keeper_wrapper.rs, KeyKeeperAction::GetKey: response.send failed -> warning with the GUID only *)
+      (st, log_console [Lit "Failed to send response to KeyKeeperAction::GetKey with guid '"; Public "guid"; Lit "'"], [])
   end.
 
 Fixpoint run_from (v : variant) (co : bool) (st : state) (h : history) : list out * list sys :=
@@ -615,6 +638,7 @@ Definition sys_step (d : dirstate) (e : sys) : dirstate :=
   | Mkdir, _ => Some (false, 493%N)             (* 0o755 before acl_directory runs *)
   | Chown u g, Some (_, m) => Some (N.eqb u 0%N && N.eqb g 0%N, m)
   | Chmod m, Some (c, _) => Some (c, m)
+  | Rmdir, _ => None
   | _, _ => d
   end.
 Definition restricted (d : dirstate) : bool :=
@@ -626,9 +650,21 @@ Definition restricted_in (co : bool) (d : dirstate) : bool := if co then restric
 Fixpoint creates_restricted (co : bool) (d : dirstate) (tr : list sys) : bool :=
   match tr with
   | [] => true
-  | Create _ :: tr' => restricted_in co d && creates_restricted co d tr'
+  | Create FKeyFile :: tr' => restricted_in co d && creates_restricted co d tr'   (* a KEY file is created *)
   | e :: tr' => creates_restricted co (sys_step d e) tr'
   end.
+
+(* known-finding class F12: the key directory is removed and, before the agent is started again, the provision
+   deadline re-creates it unrestricted ([removed]: the directory is currently gone) *)
+Fixpoint recreated_unrestricted (removed : bool) (h : history) : bool :=
+  match h with
+  | [] => false
+  | RemoveKeyDir :: h' => recreated_unrestricted true h'
+  | Restart :: h' => recreated_unrestricted false h'
+  | ProvisionTimeup :: h' => removed || recreated_unrestricted removed h'
+  | _ :: h' => recreated_unrestricted removed h'
+  end.
+Definition KnownClass_keydir_recreated_unrestricted (h : history) : bool := recreated_unrestricted false h.
 Definition init_dir (predir : bool) : dirstate := if predir then Some (false, 493%N) else None.
 Definition dir_after (predir : bool) (tr : list sys) : dirstate := fold_left sys_step tr (init_dir predir).
 
@@ -636,5 +672,5 @@ Definition dir_after (predir : bool) (tr : list sys) : dirstate := fold_left sys
 Definition sys_code (e : sys) : N * N :=
   match e with
   | Mkdir => (0, 0) | Chown u g => (1, u * 65536 + g) | Chmod m => (2, m)
-  | Create FKeyFile => (3, 0) | Create FTag => (3, 1)
+  | Create FKeyFile => (3, 0) | Create FTag => (3, 1) | Rmdir => (4, 0)
   end%N.
